@@ -181,7 +181,7 @@ func init() {
 		sb.WriteString("def keyByRewrite : Bool := " + c10Bool(byRewrite) + "\n\n")
 
 		// ---- dictionary dispatch + like switch
-		fs3, ks, err := ParseFile(repo, "index/kv_store.go")
+		fs3, ks, err := ParseFileRaw(repo, "index/kv_store.go")
 		if err != nil {
 			return "", err
 		}
@@ -312,7 +312,7 @@ func init() {
 		sb.WriteString("def lutCumulative : Bool := " + c10Bool(cum) + "\n\n")
 
 		// ---- PrepareFlush swap condition of the three stores
-		_, mid, err := ParseFile(repo, "index/metric_index_database.go")
+		_, mid, err := ParseFileRaw(repo, "index/metric_index_database.go")
 		if err != nil {
 			return "", err
 		}
